@@ -123,10 +123,15 @@ pub fn plan_admin(w: &World, _k: &Knobs, actor: &mut Actor, l: &Ledger) -> Vec<(
         }
         8 | 9 => {
             // adaptive pool: constants and delegated fee rate
-            let oracle = ix::pda_oracle(wk);
+            let mut oracle = ix::pda_oracle(wk);
             if l.exists(&oracle) {
                 if rng.chance(1, 2) {
                     let (_, c) = arbitrary_constants(rng, pool.tick_spacing);
+                    // packaging fault: the oracle of another adaptive pool (other tick spacing) next to this pool
+                    let other: Vec<Pubkey> = pools.iter().filter(|(k, p)| k != wk && p.tick_spacing != pool.tick_spacing).map(|(k, _)| ix::pda_oracle(k)).filter(|o| l.exists(o)).collect();
+                    if !other.is_empty() && rng.chance(1, 3) {
+                        oracle = other[rng.idx(other.len())];
+                    }
                     let opt16 = |rng: &mut Rng, v: u16| if rng.chance(1, 2) { Some(v) } else { None };
                     let opt32 = |rng: &mut Rng, v: u32| if rng.chance(1, 2) { Some(v) } else { None };
                     push(
